@@ -184,6 +184,78 @@ def enclosing_fn(gen, ln):
   return "?"
 
 
+def with_extra_parts(unit, extra):
+  """insert auto-resolved items right before the first extracted function of the unit"""
+  parts = list(unit.parts)
+  idx = next((i for i, p in enumerate(parts) if isinstance(p, vx.Fn)), len(parts))
+  parts[idx:idx] = extra
+  u2 = Unit(unit.name, unit.props, parts, unit.safety_props, unit.notes, unit.rlimit, unit.trusted_note)
+  return u2
+
+
+def resolve_missing(unit, gen, res, log):
+  """Names the extracted code refers to but the unit does not define (typically introduced by an edit of /repo):
+  constants of the same source file are pulled in verbatim; functions of the same file become contract-less
+  external stubs (their result is arbitrary: sound, and a caller that needs more fails its obligation)."""
+  extra = []
+  seen = set(l["name"] for l in log)
+  files = []
+  for p in unit.parts:
+    if isinstance(p, vx.Fn) and p.file not in files:
+      files.append(p.file)
+  for d in res["diags"]:
+    msg = d.get("message") or ""
+    m = re.search(r"cannot find (value|function) `([A-Za-z_][A-Za-z0-9_]*)` in this scope", msg)
+    m2 = re.search(r"no (?:function or associated item|method|associated item) named `([A-Za-z_][A-Za-z0-9_]*)` found for (?:struct|enum|reference|type) `&?(?:mut )?([A-Za-z_][A-Za-z0-9_:]*)", msg)
+    if not m and not m2:
+      continue
+    name = m.group(2) if m else m2.group(1)
+    if name in seen:
+      continue
+    # origin file of the reference, else every file of the unit
+    cand = []
+    for sp in d.get("spans", []):
+      o = gen.origin[sp["line_start"] - 1] if 0 < sp["line_start"] <= len(gen.origin) else {}
+      if o.get("file") and o["file"] not in cand:
+        cand.append(o["file"])
+    cand += [f for f in files if f not in cand]
+    done = False
+    for f in cand:
+      src = vx.Src.get(f)
+      if m and m.group(1) == "value":
+        for kind in ("const", "static"):
+          if re.search(r"\b%s\s+%s\b" % (kind, re.escape(name)), src.mask):
+            extra.append(vx.Item(f, kind, name))
+            log.append({"name": name, "how": "%s pulled in from %s" % (kind, f)})
+            done = True
+            break
+      else:
+        mm = re.search(r"\bfn\s+%s\b" % re.escape(name), src.mask)
+        if mm:
+          # enclosing impl header, if any
+          hdr = None
+          for im in re.finditer(r"(?m)^[ \t]*impl\b([^{;]*)\{", src.mask):
+            op = im.end() - 1
+            try:
+              cl = vx.match_close(src.mask, op)
+            except vx.VxError:
+              continue
+            if op < mm.start() < cl:
+              hdr = " ".join(im.group(1).split())
+          if hdr:
+            tname = hdr.split(" for ")[-1].strip()
+            fn = vx.Fn(f, name, impl=r"impl\s+" + re.escape(hdr).replace(r"\ ", r"\s+") + r"\s*", emit_impl="impl " + tname, contract_only=True)
+          else:
+            fn = vx.Fn(f, name, contract_only=True)
+          extra.append(fn)
+          log.append({"name": name, "how": "function of %s added as a contract-less external stub (arbitrary result)" % f})
+          done = True
+      if done:
+        seen.add(name)
+        break
+  return extra
+
+
 def run_probes(unit, workdir, args):
   """every contracted function gets an uncalled twin `<name>__vprobe` with the extra clause `ensures false`;
   each twin must be REJECTED (else its precondition/assumptions are contradictory or no exit is reachable)"""
@@ -211,20 +283,22 @@ def run_probes(unit, workdir, args):
     p2 = os.path.join(workdir, "%s_probes.rs" % unit.name)
     open(p2, "w").write("\n".join(g2.lines))
     r2 = run_verus(p2, ["--verify-root", "--verify-function", "*__vprobe"] + list(args), timeout=600, multiple_errors=0)
-    rejected = set()
-    for d in r2["diags"]:
-      for sp in d.get("spans", []):
-        ln = sp["line_start"]
-        o = g2.origin[ln - 1] if 0 < ln <= len(g2.origin) else {}
-        if (o.get("name") or "").endswith("VACUITY_PROBE"):
-          rejected.add(o.get("fn"))
+    # a twin is vacuous iff Verus PROVES `false` for it, i.e. reports the twin as verified; any failure
+    # (postcondition rejected, or the solver giving up) means `false` was not derivable
+    times2 = fn_times(r2["json"])
+    proved = set(k.split("::")[-1] for k, v in times2.items() if v.get("success") and k.endswith("__vprobe"))
+    seen2 = set(k.split("::")[-1] for k in times2 if k.endswith("__vprobe"))
     for qn in twins:
       key = qn.replace("__vprobe", "")
-      if qn in rejected:
-        res["probe"][key] = "rejected"
+      short = qn.split("::")[-1]
+      if r2["json"] is None or short not in seen2:
+        res["probe"][key] = "NOT-RUN"
+        res["undecided"].append({"msg": "vacuity probe for %s did not run: rc=%s %s" % (key, r2["rc"], (r2["stderr"] or " ".join(d.get("message", "") for d in r2["diags"]))[-300:])})
+      elif short in proved:
+        res["probe"][key] = "VACUOUS"
+        res["undecided"].append({"msg": "vacuity probe: `ensures false` on %s was PROVED (contradictory precondition/assumption or unreachable exit)" % key})
       else:
-        res["probe"][key] = "NOT-REJECTED"
-        res["undecided"].append({"msg": "vacuity probe: `ensures false` on %s was not rejected (contradictory precondition/assumption or unreachable exit?) rc=%s %s" % (key, r2["rc"], (r2["stderr"] or "")[-300:])})
+        res["probe"][key] = "rejected"
     try:
       os.remove(p2)
     except OSError:
@@ -240,26 +314,35 @@ def run_unit(unit, workdir, seed=0, probes=True, jobs=8):
   t0 = time.time()
   out = {"unit": unit.name, "props": unit.props, "status": "ok", "obligations": [], "failures": [], "undecided": [],
          "functions": [], "drops": [], "trusted_scan": {}, "probe": {}, "solver_ms": 0.0, "wall_s": 0.0, "cmd": ""}
-  try:
-    gen = vx.generate(unit, probe=False)
-  except vx.VxError as e:
-    out["status"] = "undecided"
-    out["undecided"].append({"msg": "extraction: %s" % e})
-    out["wall_s"] = time.time() - t0
-    return out
   path = os.path.join(workdir, "%s.rs" % unit.name)
-  open(path, "w").write("\n".join(gen.lines))
-  json.dump(gen.origin, open(path + ".map.json", "w"))
   args = []
   if unit.rlimit:
     args += ["--rlimit", str(unit.rlimit)]
   if seed:
     args += ["--smt-option", "smt.random_seed=%d" % seed]
+  auto_added = []
+  gen = None
+  res = None
+  for attempt in range(6):
+    try:
+      gen = vx.generate(unit, probe=False)
+    except vx.VxError as e:
+      out["status"] = "undecided"
+      out["undecided"].append({"msg": "extraction: %s" % e})
+      out["wall_s"] = time.time() - t0
+      return out
+    open(path, "w").write("\n".join(gen.lines))
+    res = run_verus(path, args)
+    extra_parts = resolve_missing(unit, gen, res, auto_added)
+    if not extra_parts:
+      break
+    unit = with_extra_parts(unit, extra_parts)
+  out["auto_resolved"] = auto_added
+  json.dump(gen.origin, open(path + ".map.json", "w"))
   probe_future = None
   if probes:
     probe_ex = cf.ThreadPoolExecutor(max_workers=1)
     probe_future = probe_ex.submit(run_probes, unit, workdir, list(args))
-  res = run_verus(path, args)
   # a resource-limit hit decides nothing: retry the affected function alone with a 10x limit so that a false
   # obligation is reported as a crisp failure (and a slow-but-true one as discharged) instead of "unknown"
   rl = [d for d in res["diags"] if "rlimit" in (d.get("message") or "")]
@@ -281,7 +364,15 @@ def run_unit(unit, workdir, seed=0, probes=True, jobs=8):
       if r2["json"] is None:
         keep += [d for d in rl]
       else:
-        keep += [d for d in r2["diags"] if not (d.get("message") or "").startswith("verifying root module")]
+        for d in r2["diags"]:
+          if (d.get("message") or "").startswith("verifying root module"):
+            continue
+          if "rlimit" in (d.get("message") or ""):
+            # still undischarged with 10x the budget that suffices on the unchanged tree: an obligation that used to be
+            # discharged no longer is -- reported as a failed obligation (reason: solver resource limit), not as "unknown"
+            d = dict(d)
+            d["message"] = "assertion failed: obligation no longer discharged (solver resource limit exhausted at 10x budget)"
+          keep.append(d)
         t2 = fn_times(r2["json"])
         try:
           for mod in res["json"]["times-ms"]["smt"]["smt-run-module-times"]:
@@ -290,6 +381,11 @@ def run_unit(unit, workdir, seed=0, probes=True, jobs=8):
         except Exception:
           pass
     res["diags"] = keep
+    if not [d for d in keep if d.get("level") == "error" and not (d.get("message") or "").startswith("aborting due to")]:
+      try:
+        res["json"]["verification-results"]["encountered-error"] = False
+      except Exception:
+        pass
     res["cmd"] += "  (rlimit x10 retry of: %s)" % ", ".join(retried)
     out["rlimit_retry"] = retried
   out["cmd"] = res["cmd"]
